@@ -2,6 +2,7 @@ package props
 
 import (
 	"fmt"
+	"go/token"
 
 	"golang.org/x/tools/go/ssa"
 
@@ -69,4 +70,63 @@ func returnsError(rt *ssa.Return) bool {
 		return false
 	}
 	return isErrorTyped(rt.Results[len(rt.Results)-1].Type())
+}
+
+// checkNoElementSkipped: in every loop of the named functions, each iteration performs the loop's effect — a write
+// into the output buffer (builtin copy) or an addition to an accumulator carried around the loop.  A `continue` (or any
+// branch back to the loop header) that bypasses the effect leaves an element out of the encoding or of its size.
+func checkNoElementSkipped(p *core.Prog, r *core.Report, rule string, pkg string, fnNames ...string) int {
+	total := 0
+	for _, name := range fnNames {
+		fn := p.Func(pkg, name)
+		r.Touch(core.FuncName(fn))
+		var bad []string
+		n := 0
+		for _, l := range core.Loops(fn) {
+			// accumulators: header phis
+			acc := map[ssa.Value]bool{}
+			for _, in := range l.Header.Instrs {
+				if ph, ok := in.(*ssa.Phi); ok {
+					acc[ph] = true
+				}
+			}
+			isEffect := func(in ssa.Instruction) bool {
+				if !l.Body[in.Block()] {
+					return false
+				}
+				if cc, ok := core.IsBuiltinCall(in, "copy"); ok && cc != nil {
+					return true
+				}
+				if bo, ok := in.(*ssa.BinOp); ok && bo.Op == token.ADD {
+					for a := range acc {
+						if core.SkipConv(bo.X) == a || core.SkipConv(bo.Y) == a {
+							return true
+						}
+					}
+				}
+				return false
+			}
+			if len(core.FindInstrs(fn, isEffect)) == 0 {
+				continue // a loop without recognisable effect (not an encoding loop)
+			}
+			n++
+			total++
+			// body entry: successors of the header inside the body
+			for i, s := range l.Header.Succs {
+				if !l.Body[s] || s == l.Header {
+					continue
+				}
+				_ = i
+				q := core.PathQuery{Fn: fn, CutInstr: isEffect}
+				if isEffect(s.Instrs[0]) {
+					continue
+				}
+				if _, reach := q.CanReach(s.Instrs[0], func(x ssa.Instruction) bool { return x.Block() == l.Header && x == l.Header.Instrs[0] }); reach {
+					bad = append(bad, fmt.Sprintf("loop at %s: an iteration can return to the loop head without writing/counting its element", p.Pos(l.Header.Instrs[len(l.Header.Instrs)-1].Pos())))
+				}
+			}
+		}
+		r.Check(n > 0 && len(bad) == 0, rule, name+"/no-element-skipped", "every element of the list/map is encoded (and counted): no iteration goes back to the loop head without its write or its addition to the size", fmt.Sprintf("%d encoding loops; %v", n, bad), p.Pos(fn.Pos()))
+	}
+	return total
 }
